@@ -9,8 +9,9 @@ import hist
 import progs as P
 
 COQ_FILES = ("Base/Bytes.v", "Base/Sha256.v", "L0_Hash/DdsHash.v", "L1_Args/ArgCtx.v", "L3_Sig/Program.v", "L3_Sig/Sig.v",
-             "L3_Sig/RunSig.v", "L4_Eval/DdsEval.v", "L4_Eval/RunEval.v", "L4_Eval/EvalProofs.v", "L3_Sig/SigTree.v", "L3_Sig/SigTreeProofs.v", "Properties/C01.v", "Properties/C01b.v")
-PROPERTY_FILES = ("C01", "C01b")
+             "L3_Sig/RunSig.v", "L4_Eval/DdsEval.v", "L4_Eval/RunEval.v", "L4_Eval/EvalProofs.v", "L3_Sig/SigTree.v", "L3_Sig/SigTreeProofs.v", "L4_Eval/SoundnessDefs.v", "L4_Eval/SoundnessA.v", "L4_Eval/Soundness.v",
+             "Properties/C01.v", "Properties/C01b.v", "Properties/C01c.v")
+PROPERTY_FILES = ("C01", "C01b", "C01c")
 EXTRACTED = ("ConstHash", "ConstSig", "ConstStages")
 ALLOWED_AXIOMS = ()
 
